@@ -1,6 +1,7 @@
 package sim
 
 import (
+	"sync"
 	"fmt"
 	"math/rand/v2"
 )
@@ -54,6 +55,10 @@ func (h *hasher) Sum() uint64 { return h.h }
 // mode it reads the tape (falling back to the PCG when the tape is exhausted,
 // and reducing out-of-range values mod n). Logging never draws.
 type Chooser struct {
+	// draws come from the scheduler and, for the chooser-evicting cache, from whichever goroutine
+	// of the code under test calls the cache; the quiescence protocol already orders them, the
+	// lock only tells the race detector so
+	mu     sync.Mutex
 	rng    *rand.Rand
 	tape   []int
 	pos    int
@@ -76,6 +81,8 @@ func (c *Chooser) Intn(n int) int {
 	if n <= 1 {
 		return 0
 	}
+	c.mu.Lock()
+	defer c.mu.Unlock()
 	c.Draws++
 	if c.replay {
 		if c.pos < len(c.tape) {
@@ -101,7 +108,11 @@ func (c *Chooser) Intn(n int) int {
 // Chance returns true with probability num/den.
 func (c *Chooser) Chance(num, den int) bool { return c.Intn(den) < num }
 
-func (c *Chooser) Tape() []int { return append([]int(nil), c.tape...) }
+func (c *Chooser) Tape() []int {
+	c.mu.Lock()
+	defer c.mu.Unlock()
+	return append([]int(nil), c.tape...)
+}
 
 // Gen is a plain seeded generator used for up-front generation of explicit
 // operation lists (not recorded: the ops themselves are the record).
